@@ -6,6 +6,7 @@ persisted); completion actions (close + rename, copy out + descriptor, callback,
 Steps that discard resources drain them (delete_resource, join source index, driver), so an upstream observer sees the full
 stream even when later steps delete / merge / filter.
 """
+from contracts import findings_natives as KF
 from contracts.common import Item
 from contracts import streams as S, dumpers as DM, base as BA, natives as N
 from contracts import C10 as K10
@@ -30,4 +31,5 @@ ITEMS = [
     Item('delete_resource.drains', K10.sym_delete_resource, [], 'dataflows/processors/delete_resource.py::delete_resource.func'),
     Item('validate', K10.sym_validate, [], 'dataflows/processors/validate.py::validate.process_resource'),
     Item('pipelines', None, [('observer-transparency', N.nat_observers)], None),
+    Item('recorded-findings', None, [('bounded', KF.nat_findings_c05)], 'dataflows/processors/dumpers/dumper_base.py::DumperBase.process_resources'),
 ]
